@@ -9,118 +9,124 @@ Import ListNotations.
 (** ** Basics *)
 Definition plain (n : node) : bool := negb (is_ident n) && negb (leaf n).
 
-Lemma ns_node t cs : plain (Node t cs) = true -> ns_count (Node t cs) = ns_count_list cs.
+Section Measure.
+  Variable stop : node -> option nat.
+  Variable kappa : nat.
+  Local Notation mu := (meas stop kappa).
+  Local Notation mul := (meas_list stop kappa).
+
+Lemma ns_node t cs : plain (Node t cs) = true -> stop_kind (Node t cs) = false -> mu (Node t cs) = mul cs.
 Proof.
-  unfold plain. intros H. apply andb_true_iff in H. destruct H as [H1 H2].
-  apply negb_true_iff in H1. apply negb_true_iff in H2. cbn [ns_count]. rewrite H1, H2. reflexivity.
+  unfold plain. intros H HB. apply andb_true_iff in H. destruct H as [H1 H2].
+  apply negb_true_iff in H1. apply negb_true_iff in H2. cbn [meas]. rewrite H1, H2, HB. reflexivity.
 Qed.
 
-Lemma ns_leaf n : leaf n = true -> ns_count n = 0.
+Lemma ns_leaf n : leaf n = true -> mu n = 0.
 Proof.
-  destruct n as [t cs]. intros H. cbn [ns_count].
+  destruct n as [t cs]. intros H. cbn [mu].
   assert (I : is_ident (Node t cs) = false).
   { destruct t as [k lo hi| | | | | |]; try reflexivity. destruct k; try reflexivity; discriminate H. }
   rewrite I, H. reflexivity.
 Qed.
 
-Lemma ns_lit e : is_lit e = true -> ns_count e = 0.
+Lemma ns_lit e : is_lit e = true -> mu e = 0.
 Proof.
   intros H. apply ns_leaf. destruct e as [[k lo hi| | | | | |] cs]; try discriminate H.
   unfold is_lit in H. cbn in H. unfold leaf, is_leaf_kind. rewrite H. reflexivity.
 Qed.
 
-Lemma ns_list_app a b : ns_count_list (a ++ b) = ns_count_list a + ns_count_list b.
-Proof. unfold ns_count_list. induction a as [|x r IH]; simpl; [reflexivity | rewrite IH; lia]. Qed.
+Lemma ns_list_app a b : mul (a ++ b) = mul a + mul b.
+Proof. unfold mul. induction a as [|x r IH]; simpl; [reflexivity | rewrite IH; lia]. Qed.
 
-Lemma ns_list_cons x l : ns_count_list (x :: l) = ns_count x + ns_count_list l.
+Lemma ns_list_cons x l : mul (x :: l) = mu x + mul l.
 Proof. reflexivity. Qed.
 
 (** Identifiers built by the rewriter. *)
-Lemma ns_mk_ident s sym : String.eqb sym gen_DD_GLOBAL_NAMESPACE = false -> ns_count (mk_ident s sym) = 0.
-Proof. intros H. unfold mk_ident, mk. cbn [ns_count is_ident is_kind kind_of kind_eqb is_ns_ident nS]. simpl. rewrite H. reflexivity. Qed.
+Lemma ns_mk_ident s sym : String.eqb sym gen_DD_GLOBAL_NAMESPACE = false -> mu (mk_ident s sym) = 0.
+Proof. intros H. unfold mk_ident, mk. cbn [mu is_ident is_kind kind_of kind_eqb is_ns_ident nS]. simpl. rewrite H. reflexivity. Qed.
 
-Lemma ns_mk_binding_ident s sym : String.eqb sym gen_DD_GLOBAL_NAMESPACE = false -> ns_count (mk_binding_ident s sym) = 0.
+Lemma ns_mk_binding_ident s sym : String.eqb sym gen_DD_GLOBAL_NAMESPACE = false -> mu (mk_binding_ident s sym) = 0.
 Proof. intros H. unfold mk_binding_ident, mk. simpl. rewrite H. reflexivity. Qed.
 
 Lemma temp_name_not_ns c n : String.eqb (temp_name c n) gen_DD_GLOBAL_NAMESPACE = false.
 Proof. unfold temp_name, var_prefix. reflexivity. Qed.
 
-Lemma ns_mk_ident_name s sym : ns_count (mk_ident_name s sym) = 0.
+Lemma ns_mk_ident_name s sym : mu (mk_ident_name s sym) = 0.
 Proof. reflexivity. Qed.
 
-Lemma ns_mk_arg e : ns_count (mk_arg e) = ns_count e.
+Lemma ns_mk_arg e : mu (mk_arg e) = mu e.
 Proof. unfold mk_arg, nO, nNul. rewrite ns_node by reflexivity. simpl. lia. Qed.
 
-Lemma ns_mk_spread_arg e : ns_count (mk_spread_arg e) = ns_count e.
+Lemma ns_mk_spread_arg e : mu (mk_spread_arg e) = mu e.
 Proof. unfold mk_spread_arg, nO, span_obj. rewrite ns_node by reflexivity. simpl. lia. Qed.
 
-Lemma ns_expr_or_spread e ik : ns_count (expr_or_spread e ik) = ns_count e.
+Lemma ns_expr_or_spread e ik : mu (expr_or_spread e ik) = mu e.
 Proof. destruct ik; [apply ns_mk_arg | apply ns_mk_spread_arg]. Qed.
 
-Lemma ns_assign_right e ik : ns_count (assign_right e ik) = ns_count e.
+Lemma ns_assign_right e ik : mu (assign_right e ik) = mu e.
 Proof.
   destruct ik; [reflexivity|]. unfold assign_right, mk_array, mk. rewrite ns_node by reflexivity.
-  unfold nL. cbn [ns_count_list fold_right]. rewrite ns_node by reflexivity.
-  cbn [ns_count_list fold_right]. rewrite ns_mk_spread_arg. lia.
+  unfold nL. cbn [mul fold_right]. rewrite ns_node by reflexivity.
+  cbn [mul fold_right]. rewrite ns_mk_spread_arg. lia.
 Qed.
 
-Lemma ns_mk_assign span op l r : ns_count (mk_assign span op l r) = ns_count l + ns_count r.
+Lemma ns_mk_assign span op l r : mu (mk_assign span op l r) = mu l + mu r.
 Proof. unfold mk_assign, mk. rewrite ns_node by reflexivity. simpl. lia. Qed.
 
-Lemma ns_mk_bin span op l r : ns_count (mk_bin span op l r) = ns_count l + ns_count r.
+Lemma ns_mk_bin span op l r : mu (mk_bin span op l r) = mu l + mu r.
 Proof. unfold mk_bin, mk. rewrite ns_node by reflexivity. simpl. lia. Qed.
 
-Lemma ns_mk_member span o p : ns_count (mk_member span o p) = ns_count o + ns_count p.
+Lemma ns_mk_member span o p : mu (mk_member span o p) = mu o + mu p.
 Proof. unfold mk_member, mk. rewrite ns_node by reflexivity. simpl. lia. Qed.
 
-Lemma ns_mk_paren span e : ns_count (mk_paren span e) = ns_count e.
+Lemma ns_mk_paren span e : mu (mk_paren span e) = mu e.
 Proof. unfold mk_paren, mk. rewrite ns_node by reflexivity. simpl. lia. Qed.
 
-Lemma ns_mk_seq span es : ns_count (mk_seq span es) = ns_count_list es.
+Lemma ns_mk_seq span es : mu (mk_seq span es) = mul es.
 Proof.
-  unfold mk_seq, mk, nL. rewrite ns_node by reflexivity. cbn [ns_count_list fold_right].
+  unfold mk_seq, mk, nL. rewrite ns_node by reflexivity. cbn [mul fold_right].
   rewrite ns_node by reflexivity. lia.
 Qed.
 
-Lemma ns_mk_call span callee args : ns_count (mk_call span callee args) = ns_count callee + ns_count_list args.
+Lemma ns_mk_call span callee args : mu (mk_call span callee args) = mu callee + mul args.
 Proof.
-  unfold mk_call, mk, nL. rewrite ns_node by reflexivity. cbn [ns_count_list fold_right].
-  rewrite (ns_node Lst) by reflexivity. change (ns_count ctxt0) with 0. change (ns_count nNul) with 0. lia.
+  unfold mk_call, mk, nL. rewrite ns_node by reflexivity. cbn [mul fold_right].
+  rewrite (ns_node Lst) by reflexivity. change (mu ctxt0) with 0. change (mu nNul) with 0. lia.
 Qed.
 
 (** The accumulated assignments and arguments. *)
-Definition ns_acc (a : acc) : nat := ns_count_list (a_assigns a) + ns_count_list (a_args a).
+Definition ns_acc (a : acc) : nat := mul (a_assigns a) + mul (a_args a).
 
 Lemma ns_acc0 : ns_acc acc0 = 0.
 Proof. reflexivity. Qed.
 
-Lemma ns_push_assign x a : ns_acc (push_assign x a) = ns_acc a + ns_count x.
+Lemma ns_push_assign x a : ns_acc (push_assign x a) = ns_acc a + mu x.
 Proof. unfold ns_acc, push_assign. cbn [a_assigns a_args]. rewrite ns_list_app. simpl. lia. Qed.
 
-Lemma ns_push_arg x a : ns_acc (push_arg x a) = ns_acc a + ns_count x.
+Lemma ns_push_arg x a : ns_acc (push_arg x a) = ns_acc a + mu x.
 Proof. unfold ns_acc, push_arg. cbn [a_assigns a_args]. rewrite ns_list_app. simpl. lia. Qed.
 
 (** A hook call: exactly one reference more than what it wraps. *)
-Lemma ns_dd_callee name span : ns_count (dd_callee name span) = 1.
-Proof. unfold dd_callee. rewrite ns_mk_member. reflexivity. Qed.
+Lemma ns_dd_callee name span : mu (dd_callee name span) = kappa.
+Proof. unfold dd_callee. rewrite ns_mk_member. cbn. lia. Qed.
 
-Lemma ns_dd_call e args name span : ns_count (dd_call e args name span) = 1 + ns_count e + ns_count_list args.
+Lemma ns_dd_call e args name span : mu (dd_call e args name span) = kappa + mu e + mul args.
 Proof. unfold dd_call. rewrite ns_mk_call, ns_dd_callee, ns_list_cons, ns_mk_arg. lia. Qed.
 
-Lemma ns_dd_paren e a name span : ns_count (dd_paren e a name span) = 1 + ns_count e + ns_acc a.
+Lemma ns_dd_paren e a name span : mu (dd_paren e a name span) = kappa + mu e + ns_acc a.
 Proof.
   unfold dd_paren, ns_acc. destruct (a_assigns a) as [|x xs] eqn:E.
   - rewrite ns_dd_call. simpl. lia.
   - rewrite ns_mk_paren, ns_mk_seq, ns_list_app.
-    change (ns_count_list [dd_call e (a_args a) name span]) with (ns_count (dd_call e (a_args a) name span) + 0).
+    change (mul [dd_call e (a_args a) name span]) with (mu (dd_call e (a_args a) name span) + 0).
     rewrite ns_dd_call. lia.
 Qed.
 
 (** ** Allocation and operand handling conserve the measure *)
 Lemma get_temporal_ns c operand span ik a p id a' p' :
   get_temporal c operand span ik a p = (id, a', p') ->
-  ns_count (match id with Some i => i | None => operand end) + ns_acc a' = ns_count operand + ns_acc a /\
-  (id <> None -> ns_count (match id with Some i => i | None => operand end) = 0).
+  mu (match id with Some i => i | None => operand end) + ns_acc a' = mu operand + ns_acc a /\
+  (id <> None -> mu (match id with Some i => i | None => operand end) = 0).
 Proof.
   unfold get_temporal. destruct (is_lit operand) eqn:L.
   - intros H; inversion H; subst. split; [reflexivity | intros X; contradiction X; reflexivity].
@@ -135,12 +141,12 @@ Qed.
 Lemma get_ident_ns c operand span ik a p id a' p' :
   get_ident c operand span ik a p = (id, a', p') ->
   let e' := match id with Some i => i | None => operand end in
-  ns_acc a' = ns_count operand + ns_acc a /\ ns_count e' = 0.
+  ns_acc a' = mu operand + ns_acc a /\ mu e' = 0.
 Proof.
   unfold get_ident. destruct (get_temporal c operand span ik a p) as [[i a1] p1] eqn:E.
   intros H; inversion H; subst. cbn zeta.
   pose proof E as E0. apply get_temporal_ns in E. destruct E as [E1 E2].
-  assert (Z : ns_count (match id with Some i => i | None => operand end) = 0).
+  assert (Z : mu (match id with Some i => i | None => operand end) = 0).
   { destruct id as [i|]; [apply E2; discriminate|].
     unfold get_temporal in E0. destruct (is_lit operand) eqn:L; [apply ns_lit; exact L|].
     unfold next_ident in E0. cbn [fst snd] in E0. inversion E0. }
@@ -150,7 +156,7 @@ Qed.
 
 Lemma replace_default_ns c e span ik a p e' a' p' :
   replace_default c e span ik a p = (e', a', p') ->
-  ns_count e' + ns_acc a' = ns_count e + ns_acc a.
+  mu e' + ns_acc a' = mu e + ns_acc a.
 Proof.
   unfold replace_default. destruct (get_ident c e span ik a p) as [[id a1] p1] eqn:G.
   intros H; inversion H; subst. apply get_ident_ns in G. cbn zeta in G. destruct G as [G1 G2]. lia.
@@ -163,9 +169,9 @@ Qed.
 
 (** Without array expansion; an identifier that may be kept in place must not be a reference itself. *)
 Lemma replace_expr_noexpand_ns c e im span ik a p e' a' p' :
-  (im = Keep -> is_ident e = true -> ns_count e = 0) ->
+  (im = Keep -> is_ident e = true -> mu e = 0) ->
   replace_expr_noexpand c e im span ik a p = (e', a', p') ->
-  ns_count e' + ns_acc a' = ns_count e + ns_acc a.
+  mu e' + ns_acc a' = mu e + ns_acc a.
 Proof.
   intros Hid. unfold replace_expr_noexpand. destruct (is_lit e) eqn:L.
   - intros H; inversion H; subst. rewrite ns_push_arg, ns_expr_or_spread, (ns_lit _ L). lia.
@@ -180,18 +186,18 @@ Qed.
 
 Lemma replace_arg_noexpand_ns c arg span a p arg' a' p' :
   replace_arg_noexpand c arg Replace span a p = (arg', a', p') ->
-  ns_count arg' + ns_acc a' = ns_count arg + ns_acc a.
+  mu arg' + ns_acc a' = mu arg + ns_acc a.
 Proof.
   unfold replace_arg_noexpand. destruct arg as [[| | | | | |] cs]; try (intros H; inversion H; subst; reflexivity).
   destruct cs as [|spr [|e [|? ?]]]; try (intros H; inversion H; subst; reflexivity).
   destruct (replace_expr_noexpand c e Replace span _ a p) as [[e1 a1] p1] eqn:E.
   intros H; inversion H; subst. apply replace_expr_noexpand_ns in E; [|discriminate].
-  rewrite !ns_node by reflexivity. cbn [ns_count_list fold_right]. lia.
+  rewrite !ns_node by reflexivity. cbn [mul fold_right]. lia.
 Qed.
 
 Lemma replace_elems_ns c span : forall elems a p elems' a' p',
   replace_elems c elems Replace span a p = (elems', a', p') ->
-  ns_count_list elems' + ns_acc a' = ns_count_list elems + ns_acc a.
+  mul elems' + ns_acc a' = mul elems + ns_acc a.
 Proof.
   induction elems as [|el rest IH]; intros a p elems' a' p' H; simpl in H.
   - inversion H; subst. reflexivity.
@@ -199,7 +205,7 @@ Proof.
       as [[el1 a1] p1] eqn:E1.
     destruct (replace_elems c rest Replace span a1 p1) as [[rest1 a2] p2] eqn:E2.
     inversion H; subst. apply IH in E2. rewrite !ns_list_cons.
-    assert (X : ns_count el1 + ns_acc a1 = ns_count el + ns_acc a).
+    assert (X : mu el1 + ns_acc a1 = mu el + ns_acc a).
     { destruct el as [[| | | | | |] ecs]; try (apply replace_arg_noexpand_ns in E1; exact E1).
       inversion E1; subst. reflexivity. }
     lia.
@@ -208,7 +214,7 @@ Qed.
 (** Replace mode (call arguments, template substitutions), with or without array expansion. *)
 Lemma replace_expr_replace_ns c e span ik expand a p e' a' p' :
   replace_expr c e Replace span ik expand a p = (e', a', p') ->
-  ns_count e' + ns_acc a' = ns_count e + ns_acc a.
+  mu e' + ns_acc a' = mu e + ns_acc a.
 Proof.
   unfold replace_expr.
   destruct (is_lit e || is_ident e); [apply replace_expr_noexpand_ns; discriminate|].
@@ -219,15 +225,15 @@ Proof.
   destruct expand; [|apply replace_default_ns].
   destruct (replace_elems c elems Replace span a p) as [[elems1 a1] p1] eqn:E.
   intros H; inversion H; subst. apply replace_elems_ns in E.
-  rewrite !(ns_node (K KArray lo hi)) by reflexivity. cbn [ns_count_list fold_right].
+  rewrite !(ns_node (K KArray lo hi)) by reflexivity. cbn [mul fold_right].
   rewrite !(ns_node Lst) by reflexivity. lia.
 Qed.
 
 (** Any mode, no expansion (the operands of [+]). *)
 Lemma replace_expr_operand_ns c e im span ik a p e' a' p' :
-  (im = Keep -> is_ident e = true -> ns_count e = 0) ->
+  (im = Keep -> is_ident e = true -> mu e = 0) ->
   replace_expr c e im span ik false a p = (e', a', p') ->
-  ns_count e' + ns_acc a' = ns_count e + ns_acc a.
+  mu e' + ns_acc a' = mu e + ns_acc a.
 Proof.
   intros Hid. unfold replace_expr.
   destruct (is_lit e || is_ident e); [apply replace_expr_noexpand_ns; exact Hid|].
@@ -239,18 +245,18 @@ Qed.
 
 Lemma replace_arg_ns c arg span expand a p arg' a' p' :
   replace_arg c arg Replace span expand a p = (arg', a', p') ->
-  ns_count arg' + ns_acc a' = ns_count arg + ns_acc a.
+  mu arg' + ns_acc a' = mu arg + ns_acc a.
 Proof.
   unfold replace_arg. destruct arg as [[| | | | | |] cs]; try (intros H; inversion H; subst; reflexivity).
   destruct cs as [|spr [|e [|? ?]]]; try (intros H; inversion H; subst; reflexivity).
   destruct (replace_expr c e Replace span _ expand a p) as [[e1 a1] p1] eqn:E.
   intros H; inversion H; subst. apply replace_expr_replace_ns in E.
-  rewrite !ns_node by reflexivity. cbn [ns_count_list fold_right]. lia.
+  rewrite !ns_node by reflexivity. cbn [mul fold_right]. lia.
 Qed.
 
 Lemma replace_args_ns c span expand : forall args a p args' a' p',
   replace_args c args span expand a p = (args', a', p') ->
-  ns_count_list args' + ns_acc a' = ns_count_list args + ns_acc a.
+  mul args' + ns_acc a' = mul args + ns_acc a.
 Proof.
   induction args as [|x rest IH]; intros a p args' a' p' H; simpl in H.
   - inversion H; subst. reflexivity.
@@ -261,7 +267,7 @@ Qed.
 
 Lemma tpl_replace_ns c : forall es a p es' a' p',
   tpl_replace c es a p = (es', a', p') ->
-  ns_count_list es' + ns_acc a' = ns_count_list es + ns_acc a.
+  mul es' + ns_acc a' = mul es + ns_acc a.
 Proof.
   induction es as [|x rest IH]; intros a p es' a' p' H; simpl in H.
   - inversion H; subst. reflexivity.
@@ -271,12 +277,12 @@ Proof.
 Qed.
 
 (** ** The transformations: exactly one reference more *)
-Definition ident_clean (e : node) : Prop := is_ident e = true -> ns_count e = 0.
+Definition ident_clean (e : node) : Prop := is_ident e = true -> mu e = 0.
 
 Theorem binary_transform_ns c lo hi opn l r p out p' :
   ident_clean l -> ident_clean r ->
   binary_transform c (Node (K KBin lo hi) [opn; l; r]) p = (Some out, p') ->
-  ns_count out = 1 + ns_count (Node (K KBin lo hi) [opn; l; r]).
+  mu out = kappa + mu (Node (K KBin lo hi) [opn; l; r]).
 Proof.
   intros Hl Hr. unfold binary_transform.
   destruct (replace_expr c l (get_ident_mode r) (lo, hi) IKExpr false acc0 p) as [[l' a1] p1] eqn:E1.
@@ -286,11 +292,11 @@ Proof.
   apply replace_expr_operand_ns in E1; [|intros _; exact Hl].
   apply replace_expr_operand_ns in E2; [|intros _; exact Hr].
   rewrite ns_dd_paren. rewrite !(ns_node (K KBin lo hi)) by reflexivity.
-  cbn [ns_count_list fold_right]. rewrite ns_acc0 in E1. lia.
+  cbn [mul fold_right]. rewrite ns_acc0 in E1. lia.
 Qed.
 
 Theorem template_transform_ns c e p out p' :
-  template_transform c e p = (Some out, p') -> ns_count out = 1 + ns_count e.
+  template_transform c e p = (Some out, p') -> mu out = kappa + mu e.
 Proof.
   unfold template_transform. destruct e as [[k lo hi| | | | | |] cs]; try discriminate.
   destruct k; try discriminate.
@@ -298,29 +304,29 @@ Proof.
   destruct (tpl_replace c es acc0 p) as [[es' a] p1] eqn:E.
   intros H; inversion H; subst. apply tpl_replace_ns in E. rewrite ns_acc0 in E.
   rewrite ns_dd_paren. rewrite !(ns_node (K KTpl lo hi)) by reflexivity.
-  cbn [ns_count_list fold_right]. rewrite !(ns_node Lst) by reflexivity. lia.
+  cbn [mul fold_right]. rewrite !(ns_node Lst) by reflexivity. lia.
 Qed.
 
 (** ** Calls *)
 Lemma replace_callee_and_args_ns c lo hi cx callee args targs ident_callee coa a p call' a' p' :
   replace_callee_and_args c (Node (K KCall lo hi) [cx; callee; Node Lst args; targs]) ident_callee coa a p = (call', a', p') ->
-  ns_count call' + ns_acc a' =
-    ns_count cx + ns_count targs + ns_count_list args + ns_acc a +
-    match ident_callee with Some id => ns_count id | None => ns_count callee end.
+  mu call' + ns_acc a' =
+    mu cx + mu targs + mul args + ns_acc a +
+    match ident_callee with Some id => mu id | None => mu callee end.
 Proof.
   unfold replace_callee_and_args.
   destruct (replace_args c args (lo, hi) _ a p) as [[args1 a1] p1] eqn:E.
   intros H; inversion H; subst. apply replace_args_ns in E.
-  rewrite (ns_node (K KCall lo hi)) by reflexivity. cbn [ns_count_list fold_right].
+  rewrite (ns_node (K KCall lo hi)) by reflexivity. cbn [mul fold_right].
   rewrite (ns_node Lst) by reflexivity.
   destruct ident_callee as [id|]; [rewrite ns_mk_member, ns_mk_ident_name|]; lia.
 Qed.
 
 Lemma ns_insert_this lo hi cx callee args targs this :
-  ns_count (insert_this (Node (K KCall lo hi) [cx; callee; Node Lst args; targs]) this) =
-  ns_count (Node (K KCall lo hi) [cx; callee; Node Lst args; targs]) + ns_count this.
+  mu (insert_this (Node (K KCall lo hi) [cx; callee; Node Lst args; targs]) this) =
+  mu (Node (K KCall lo hi) [cx; callee; Node Lst args; targs]) + mu this.
 Proof.
-  unfold insert_this. rewrite !(ns_node (K KCall lo hi)) by reflexivity. cbn [ns_count_list fold_right].
+  unfold insert_this. rewrite !(ns_node (K KCall lo hi)) by reflexivity. cbn [mul fold_right].
   rewrite !(ns_node Lst) by reflexivity. rewrite ns_list_cons, ns_mk_arg. lia.
 Qed.
 
@@ -339,8 +345,8 @@ Lemma replace_with_member_ns c recv method mspan lo hi cx callee args targs memb
   (forall m, member_opt = Some m -> is_lit m = false) ->
   replace_with_member c recv method mspan (Node (K KCall lo hi) [cx; callee; Node Lst args; targs]) member_opt coa p
     = (Some (out, tag), p') ->
-  ns_count out = 1 + ns_count cx + ns_count targs + ns_count_list args + ns_count recv +
-                 match member_opt with Some m => ns_count m | None => 0 end.
+  mu out = kappa + mu cx + mu targs + mul args + mu recv +
+                 match member_opt with Some m => mu m | None => 0 end.
 Proof.
   intros Hm. unfold replace_with_member. destruct (csi_get c method) as [csi|]; [|discriminate].
   cbn [span_of].
@@ -352,7 +358,7 @@ Proof.
               (push_arg (mk_arg r0) a2) p2) as [[call' a4] p4] eqn:E3.
   intros H; inversion H; subst.
   (* the receiver *)
-  assert (R0 : ns_count r0 = 0 /\ ns_acc a1 = ns_count recv).
+  assert (R0 : mu r0 = 0 /\ ns_acc a1 = mu recv).
   { pose proof E1 as E1'. apply get_temporal_ns in E1'. destruct E1' as [X Y]. rewrite ns_acc0 in X.
     unfold r0. destruct id_opt as [i|].
     - rewrite (Y ltac:(discriminate)) in *. lia.
@@ -364,14 +370,14 @@ Proof.
   assert (ML : is_lit member = false).
   { unfold member. destruct member_opt as [m|]; [apply Hm; reflexivity | reflexivity]. }
   pose proof E2 as E2'. apply get_ident_ns in E2'. cbn zeta in E2'. destruct E2' as [M1 M2].
-  assert (CE : ns_count (match callee_opt with Some i => i | None => recv end) = 0).
+  assert (CE : mu (match callee_opt with Some i => i | None => recv end) = 0).
   { destruct callee_opt as [i|]; [exact M2|].
     unfold get_ident in E2. destruct (get_temporal c member (lo, hi) IKExpr a1 p1) as [[i2 a3] p3] eqn:T.
     inversion E2; subst. unfold get_temporal in T. rewrite ML in T. unfold next_ident in T. cbn [fst snd] in T. inversion T. }
   pose proof (replace_callee_shape _ _ _ _ _ _ _ _ _ _ _ _ _ _ E3) as (callee' & args' & ->).
   apply replace_callee_and_args_ns in E3. rewrite ns_push_arg, ns_mk_arg, R0, CE in E3.
   rewrite ns_dd_paren, ns_insert_this, R0.
-  assert (MM : ns_count member = match member_opt with Some m => ns_count m | None => 0 end).
+  assert (MM : mu member = match member_opt with Some m => mu m | None => 0 end).
   { unfold member. destruct member_opt as [m|]; [reflexivity|]. rewrite ns_mk_member, ns_mk_ident_name, R0. reflexivity. }
   lia.
 Qed.
@@ -379,7 +385,7 @@ Qed.
 Lemma replace_spread_ns c method lo hi cx callee args targs member coa p out tag p' :
   replace_spread_with_member c method (Node (K KCall lo hi) [cx; callee; Node Lst args; targs]) member coa p
     = (Some (out, tag), p') ->
-  ns_count out = 1 + ns_count cx + ns_count targs + ns_count_list args + ns_count member.
+  mu out = kappa + mu cx + mu targs + mul args + mu member.
 Proof.
   unfold replace_spread_with_member. destruct (csi_get c method) as [csi|]; [|discriminate]. cbn [span_of].
   destruct (get_ident c member (lo, hi) IKExpr acc0 p) as [[callee_opt a1] p1] eqn:E1.
@@ -391,9 +397,9 @@ Proof.
 Qed.
 
 Lemma replace_without_callee_ns c callee_ident lo hi cx callee args targs p out tag p' :
-  ns_count callee_ident = 0 -> callee = callee_ident ->
+  mu callee_ident = 0 -> callee = callee_ident ->
   replace_without_callee c callee_ident (Node (K KCall lo hi) [cx; callee; Node Lst args; targs]) p = (Some (out, tag), p') ->
-  ns_count out = 1 + ns_count cx + ns_count targs + ns_count_list args + ns_count callee.
+  mu out = kappa + mu cx + mu targs + mul args + mu callee.
 Proof.
   intros Hc ->. unfold replace_without_callee. destruct (ident_sym callee_ident) as [name|]; [|discriminate].
   destruct (csi_get c name) as [csi|]; [|discriminate]. destruct (m_awc csi); [|discriminate]. cbn [span_of].
@@ -404,34 +410,34 @@ Proof.
 Qed.
 
 (** Scalar fields of a call (syntax context, type arguments) carry no reference. *)
-Definition call_fields_ok (cx targs : node) : Prop := ns_count cx = 0 /\ ns_count targs = 0.
+Definition call_fields_ok (cx targs : node) : Prop := mu cx = 0 /\ mu targs = 0.
 
-Lemma arg_plain_ns spr e : ns_count (Node Obj [spr; e]) = ns_count spr + ns_count e.
+Lemma arg_plain_ns spr e : mu (Node Obj [spr; e]) = mu spr + mu e.
 Proof. rewrite ns_node by reflexivity. simpl. lia. Qed.
 
 Theorem call_transform_ns c lo hi cx callee args targs p out tag p' :
   call_fields_ok cx targs ->
-  (is_ident callee = true -> ns_count callee = 0) ->
+  (is_ident callee = true -> mu callee = 0) ->
   call_transform c (Node (K KCall lo hi) [cx; callee; Node Lst args; targs]) p = (Some (out, tag), p') ->
-  ns_count out = 1 + ns_count (Node (K KCall lo hi) [cx; callee; Node Lst args; targs]).
+  mu out = kappa + mu (Node (K KCall lo hi) [cx; callee; Node Lst args; targs]).
 Proof.
   intros [Hcx Htg] Hid. unfold call_transform. cbn [call_parts].
-  rewrite (ns_node (K KCall lo hi)) by reflexivity. cbn [ns_count_list fold_right].
+  rewrite (ns_node (K KCall lo hi)) by reflexivity. cbn [mul fold_right].
   rewrite (ns_node Lst) by reflexivity.
   destruct (member_parts callee) as [[obj prop]|] eqn:Em.
-  - assert (Cm : ns_count callee = ns_count obj + ns_count prop).
+  - assert (Cm : mu callee = mu obj + mu prop).
     { unfold member_parts in Em. destruct callee as [[k l h| | | | | |] ccs]; try discriminate.
       destruct k; try discriminate. destruct ccs as [|o [|pr [|? ?]]]; try discriminate.
       inversion Em; subst. rewrite ns_node by reflexivity. simpl. lia. }
     destruct (ident_name_sym prop) as [name|] eqn:Ep; [|discriminate].
-    assert (Pp : ns_count prop = 0).
+    assert (Pp : mu prop = 0).
     { apply ns_leaf. unfold ident_name_sym in Ep. destruct prop as [[k l h| | | | | |] pcs]; try discriminate.
       destruct k; try discriminate. reflexivity. }
     assert (W : forall member_opt coa out0 tag0 p0,
                member_opt = None ->
                replace_with_member c obj name (span_of prop) (Node (K KCall lo hi) [cx; callee; Node Lst args; targs]) member_opt coa p
                  = (Some (out0, tag0), p0) ->
-               ns_count out0 = 1 + (ns_count cx + (ns_count callee + (ns_count_list args + (ns_count targs + 0))))).
+               mu out0 = kappa + (mu cx + (mu callee + (mul args + (mu targs + 0))))).
     { intros mo coa out0 tag0 p0 -> H0. apply replace_with_member_ns in H0; [|intros m X; discriminate X]. lia. }
     destruct (is_lit obj).
     + destruct (allows_literal_callers c name); [|discriminate]. intros H. eapply W; [reflexivity | exact H].
@@ -451,12 +457,12 @@ Proof.
            unfold mk_call, mk. cbn [fst snd]. intros H.
            apply replace_with_member_ns in H.
            ++ rewrite H. unfold nL.
-              assert (Tn : ns_count this = ns_count this_expr).
+              assert (Tn : mu this = mu this_expr).
               { unfold arg_expr in Et. destruct this as [[| | | | | |] tcs]; try discriminate.
                 destruct tcs as [|spr [|e [|? ?]]]; try discriminate. inversion Et; subst.
                 rewrite arg_plain_ns. unfold arg_is_spread in Es.
                 destruct spr as [[| | | | | |] scs]; try discriminate Es. reflexivity. }
-              rewrite ns_list_cons, Tn. change (ns_count ctxt0) with 0. change (ns_count nNul) with 0. lia.
+              rewrite ns_list_cons, Tn. change (mu ctxt0) with 0. change (mu nNul) with 0. lia.
            ++ intros m X. inversion X; subst. unfold is_kind in Ek. unfold is_lit.
               destruct (kind_of m) as [k|]; [|reflexivity]. unfold kind_eqb in Ek.
               destruct (kind_eq_dec KMember k); [subst; reflexivity | discriminate].
@@ -467,7 +473,7 @@ Proof.
 Qed.
 
 (** ** Compound assignment *)
-Lemma ns_simple_target t : ns_count (simple_target_to_expr t) = ns_count t.
+Lemma ns_simple_target t : mu (simple_target_to_expr t) = mu t.
 Proof.
   unfold simple_target_to_expr. destruct t as [[k lo hi| | | | | |] cs]; try reflexivity.
   destruct k; try reflexivity. destruct cs as [|cx [|sym [|opt [|ta [|? ?]]]]]; reflexivity.
@@ -482,7 +488,7 @@ Qed.
 (** Hoisting moves references out of the target, it neither loses nor duplicates any. *)
 Lemma hoist_key_ns c prop span a p prop' a' p' :
   hoist_key c prop span a p = (prop', a', p') ->
-  ns_count prop' + ns_acc a' = ns_count prop + ns_acc a /\ a_args a' = a_args a.
+  mu prop' + ns_acc a' = mu prop + ns_acc a /\ a_args a' = a_args a.
 Proof.
   unfold hoist_key. destruct prop as [[k lo hi| | | | | |] cs]; try solve [intros H; inversion H; subst; split; reflexivity].
   destruct k; try solve [intros H; inversion H; subst; split; reflexivity].
@@ -491,12 +497,12 @@ Proof.
   destruct (get_temporal c e span IKExpr a p) as [[id a2] p2] eqn:E.
   intros H; inversion H; subst. pose proof (get_temporal_args _ _ _ _ _ _ _ _ _ E) as A.
   apply get_temporal_ns in E. destruct E as [X _].
-  rewrite !(ns_node (K KComputed lo hi)) by reflexivity. cbn [ns_count_list fold_right]. split; [lia | exact A].
+  rewrite !(ns_node (K KComputed lo hi)) by reflexivity. cbn [mul fold_right]. split; [lia | exact A].
 Qed.
 
 Lemma hoist_member_ns c t span a p t' a' p' :
   hoist_member c t span a p = Some (t', a', p') ->
-  ns_count t' + ns_acc a' = ns_count t + ns_acc a /\ a_args a' = a_args a.
+  mu t' + ns_acc a' = mu t + ns_acc a /\ a_args a' = a_args a.
 Proof.
   unfold hoist_member. destruct t as [[k lo hi| | | | | |] cs]; try discriminate.
   destruct k; try discriminate.
@@ -506,38 +512,38 @@ Proof.
                    (match id with Some i => i | None => obj end, a1, p1)) as [[obj1 a1] p1] eqn:E1.
     destruct (hoist_key c prop span a1 p1) as [[prop1 a2] p2] eqn:E2.
     intros H; inversion H; subst. apply hoist_key_ns in E2. destruct E2 as [X A].
-    assert (O : ns_count obj1 + ns_acc a1 = ns_count obj + ns_acc a /\ a_args a1 = a_args a).
+    assert (O : mu obj1 + ns_acc a1 = mu obj + ns_acc a /\ a_args a1 = a_args a).
     { destruct (is_ident obj || is_kind KThis obj); [inversion E1; subst; auto|].
       destruct (get_temporal c obj span IKExpr a p) as [[id a3] p3] eqn:T. inversion E1; subst.
       pose proof (get_temporal_args _ _ _ _ _ _ _ _ _ T) as B. apply get_temporal_ns in T. destruct T as [Y _]. auto. }
     destruct O as [O B].
-    rewrite !(ns_node (K KMember lo hi)) by reflexivity. cbn [ns_count_list fold_right]. split; [lia | congruence].
+    rewrite !(ns_node (K KMember lo hi)) by reflexivity. cbn [mul fold_right]. split; [lia | congruence].
   - destruct cs as [|obj [|prop [|? ?]]]; try discriminate.
     destruct (hoist_key c prop span a p) as [[prop1 a2] p2] eqn:E.
     intros H; inversion H; subst. apply hoist_key_ns in E. destruct E as [X A].
-    rewrite !(ns_node (K KSuperProp lo hi)) by reflexivity. cbn [ns_count_list fold_right]. split; [lia | exact A].
+    rewrite !(ns_node (K KSuperProp lo hi)) by reflexivity. cbn [mul fold_right]. split; [lia | exact A].
 Qed.
 
-Lemma ns_peel_parens : forall n, ns_count (peel_parens n) = ns_count n.
+Lemma ns_peel_parens : forall n, mu (peel_parens n) = mu n.
 Proof.
-  apply (node_ind' (fun n => ns_count (peel_parens n) = ns_count n)). intros t cs IH.
+  apply (node_ind' (fun n => mu (peel_parens n) = mu n)). intros t cs IH.
   destruct t as [k lo hi| | | | | |]; try reflexivity. destruct k; try reflexivity.
   destruct cs as [|e [|? ?]]; try reflexivity.
   cbn [peel_parens]. inversion IH; subst. rewrite (ns_node (K KParen lo hi)) by reflexivity.
-  cbn [ns_count_list fold_right]. lia.
+  cbn [mul fold_right]. lia.
 Qed.
 
 Lemma hoist_target_ns c lhs span p lhs' hoisted p' :
   hoist_target c lhs span acc0 p = (lhs', hoisted, p') ->
-  ns_count lhs' + ns_count_list (a_assigns hoisted) = ns_count lhs /\ a_args hoisted = [].
+  mu lhs' + mul (a_assigns hoisted) = mu lhs /\ a_args hoisted = [].
 Proof.
   unfold hoist_target.
   set (inner := if is_kind KParen lhs then peel_parens lhs else lhs).
-  assert (I : ns_count inner = ns_count lhs).
+  assert (I : mu inner = mu lhs).
   { unfold inner. destruct (is_kind KParen lhs); [apply ns_peel_parens | reflexivity]. }
   destruct (hoist_member c inner span acc0 p) as [[[t a] q]|] eqn:E.
   - intros H; inversion H; subst. apply hoist_member_ns in E. destruct E as [X A].
-    unfold ns_acc in X. rewrite A in X. cbn [acc0 a_args a_assigns ns_count_list fold_right] in X.
+    unfold ns_acc in X. rewrite A in X. cbn [acc0 a_args a_assigns mul fold_right] in X.
     split; [lia | exact A].
   - intros H; inversion H; subst. split; [simpl; lia | reflexivity].
 Qed.
@@ -545,16 +551,16 @@ Qed.
 (** The compound assignment: one reference more, provided what remains of the target after
     hoisting (it is written twice) carries none. *)
 Theorem assign_transform_ns c lo hi opn lhs rhs p out p' :
-  ns_count opn = 0 -> ident_clean rhs ->
-  (forall lhs' hoisted p0, hoist_target c lhs (lo, hi) acc0 p = (lhs', hoisted, p0) -> ns_count lhs' = 0) ->
+  mu opn = 0 -> ident_clean rhs ->
+  (forall lhs' hoisted p0, hoist_target c lhs (lo, hi) acc0 p = (lhs', hoisted, p0) -> mu lhs' = 0) ->
   assign_transform c (Node (K KAssign lo hi) [opn; lhs; rhs]) p = (Some out, p') ->
-  ns_count out = 1 + ns_count (Node (K KAssign lo hi) [opn; lhs; rhs]).
+  mu out = kappa + mu (Node (K KAssign lo hi) [opn; lhs; rhs]).
 Proof.
   intros Hop Hr Hl. unfold assign_transform. destruct (is_pat_target lhs); [discriminate|].
   destruct (hoist_target c lhs (lo, hi) acc0 p) as [[lhs' hoisted] p0] eqn:E.
   pose proof (Hl _ _ _ eq_refl) as L0. apply hoist_target_ns in E. destruct E as [E A].
   set (right := if is_op bin_op "+" rhs then mk_paren (span_of rhs) rhs else rhs).
-  assert (Rn : ns_count right = ns_count rhs).
+  assert (Rn : mu right = mu rhs).
   { unfold right. destruct (is_op bin_op "+" rhs); [apply ns_mk_paren | reflexivity]. }
   assert (Rc : ident_clean right).
   { unfold right, ident_clean. destruct (is_op bin_op "+" rhs); [discriminate | exact Hr]. }
@@ -563,32 +569,91 @@ Proof.
   apply binary_transform_ns in B; [| |exact Rc].
   2:{ unfold ident_clean. rewrite ns_simple_target. intros _. exact L0. }
   intros H; inversion H; subst.
-  rewrite (ns_node (K KBin lo hi)) in B by reflexivity. cbn [ns_count_list fold_right nS] in B.
+  rewrite (ns_node (K KBin lo hi)) in B by reflexivity. cbn [mul fold_right nS] in B.
   rewrite ns_simple_target, L0, Rn in B.
-  rewrite (ns_node (K KAssign lo hi)) by reflexivity. cbn [ns_count_list fold_right]. rewrite Hop.
+  rewrite (ns_node (K KAssign lo hi)) by reflexivity. cbn [mul fold_right]. rewrite Hop.
   destruct (a_assigns hoisted) as [|h hs] eqn:Eh.
-  - rewrite ns_mk_assign, L0, B. cbn [ns_count_list fold_right] in E. change (ns_count (nS "+")) with 0. lia.
+  - rewrite ns_mk_assign, L0, B. cbn [mul fold_right] in E. change (mu (nS "+")) with 0. lia.
   - rewrite ns_mk_paren, ns_mk_seq.
-    match goal with |- context [ns_count_list ?l] =>
-      replace (ns_count_list l) with (ns_count_list (h :: hs) + ns_count_list [mk_assign (lo, hi) "=" lhs' e'])
+    match goal with |- context [mul ?l] =>
+      replace (mul l) with (mul (h :: hs) + mul [mk_assign (lo, hi) "=" lhs' e'])
         by (rewrite <- ns_list_app; reflexivity) end.
-    cbn [ns_count_list fold_right]. cbn [ns_count_list fold_right] in E.
-    rewrite ns_mk_assign, L0, B. change (ns_count (nS "+")) with 0. lia.
+    cbn [mul fold_right]. cbn [mul fold_right] in E.
+    rewrite ns_mk_assign, L0, B. change (mu (nS "+")) with 0. lia.
 Qed.
 
+End Measure.
+Arguments ns_node {stop kappa}.
+Arguments ns_leaf {stop kappa}.
+Arguments ns_lit {stop kappa}.
+Arguments ns_list_app {stop kappa}.
+Arguments ns_list_cons {stop kappa}.
+Arguments ns_mk_ident {stop kappa}.
+Arguments ns_mk_binding_ident {stop kappa}.
+Arguments ns_mk_ident_name {stop kappa}.
+Arguments ns_mk_arg {stop kappa}.
+Arguments ns_mk_spread_arg {stop kappa}.
+Arguments ns_expr_or_spread {stop kappa}.
+Arguments ns_assign_right {stop kappa}.
+Arguments ns_mk_assign {stop kappa}.
+Arguments ns_mk_bin {stop kappa}.
+Arguments ns_mk_member {stop kappa}.
+Arguments ns_mk_paren {stop kappa}.
+Arguments ns_mk_seq {stop kappa}.
+Arguments ns_mk_call {stop kappa}.
+Arguments ns_acc0 {stop kappa}.
+Arguments ns_push_assign {stop kappa}.
+Arguments ns_push_arg {stop kappa}.
+Arguments ns_dd_callee {stop kappa}.
+Arguments ns_dd_call {stop kappa}.
+Arguments ns_dd_paren {stop kappa}.
+Arguments get_temporal_ns {stop kappa}.
+Arguments get_ident_ns {stop kappa}.
+Arguments replace_default_ns {stop kappa}.
+Arguments replace_expr_noexpand_ns {stop kappa}.
+Arguments replace_arg_noexpand_ns {stop kappa}.
+Arguments replace_elems_ns {stop kappa}.
+Arguments replace_expr_replace_ns {stop kappa}.
+Arguments replace_expr_operand_ns {stop kappa}.
+Arguments replace_arg_ns {stop kappa}.
+Arguments replace_args_ns {stop kappa}.
+Arguments tpl_replace_ns {stop kappa}.
+Arguments binary_transform_ns {stop kappa}.
+Arguments template_transform_ns {stop kappa}.
+Arguments replace_callee_and_args_ns {stop kappa}.
+Arguments ns_insert_this {stop kappa}.
+Arguments replace_with_member_ns {stop kappa}.
+Arguments replace_spread_ns {stop kappa}.
+Arguments replace_without_callee_ns {stop kappa}.
+Arguments arg_plain_ns {stop kappa}.
+Arguments call_transform_ns {stop kappa}.
+Arguments ns_simple_target {stop kappa}.
+Arguments hoist_key_ns {stop kappa}.
+Arguments hoist_member_ns {stop kappa}.
+Arguments ns_peel_parens {stop kappa}.
+Arguments hoist_target_ns {stop kappa}.
+Arguments assign_transform_ns {stop kappa}.
+
 (** ** Arrow normalisation adds no reference *)
+Lemma ns_node_nostop k t cs : plain (Node t cs) = true -> meas no_stop k (Node t cs) = meas_list no_stop k cs.
+Proof.
+  unfold plain. intros H. apply andb_true_iff in H. destruct H as [H1 H2].
+  apply negb_true_iff in H1. apply negb_true_iff in H2. cbn [meas]. rewrite H1, H2.
+  destruct (stop_kind (Node t cs)); reflexivity.
+Qed.
+
 Lemma arrow_transform_ns n : ns_count (arrow_transform n) = ns_count n.
 Proof.
-  unfold arrow_transform. destruct n as [[k lo hi| | | | | |] cs]; try reflexivity.
+  unfold ns_count. unfold arrow_transform. destruct n as [[k lo hi| | | | | |] cs]; try reflexivity.
   destruct k; try reflexivity.
   destruct cs as [|cx [|params [|body [|asy [|gen [|tp [|rt [|? ?]]]]]]]]; try reflexivity.
   destruct (is_kind KBlock body); [reflexivity|].
-  rewrite !(ns_node (K KArrow lo hi)) by reflexivity. cbn [ns_count_list fold_right].
-  unfold mk_block, mk_return, mk, nL. cbn [fst snd].
-  rewrite (ns_node (K KBlock 0 0)) by reflexivity. cbn [ns_count_list fold_right].
-  rewrite (ns_node Lst) by reflexivity. cbn [ns_count_list fold_right].
-  rewrite (ns_node (K KReturn 0 0)) by reflexivity. cbn [ns_count_list fold_right].
-  change (ns_count ctxt0) with 0. lia.
+  rewrite !(ns_node_nostop 1 (K KArrow lo hi)) by reflexivity. cbn [meas_list fold_right].
+  unfold mk_block, mk_return, mk, nL.
+  rewrite (ns_node_nostop 1 (K KBlock _ _)) by reflexivity. cbn [meas_list fold_right].
+  rewrite (ns_node_nostop 1 Lst) by reflexivity. cbn [meas_list fold_right].
+  rewrite (ns_node_nostop 1 (K KReturn _ _)) by reflexivity. cbn [meas_list fold_right].
+  change (meas no_stop 1 ctxt0) with 0. lia.
 Qed.
 
 (** ** The names registered for declaration are temporaries, never the hook namespace *)
